@@ -490,6 +490,20 @@ class invariant:  # pylint: disable=invalid-name
 
             invariants_on_setattr = []  # type: List[Invariant]
             setattr(cls, "__invariants_on_setattr__", invariants_on_setattr)
+        elif "__invariants__" not in cls.__dict__ and isinstance(
+            cls, icontract._metaclass.DBCMeta  # pylint: disable=protected-access
+        ):
+            # The class inherits the contracts, but has no lists of its own (its bases were given the invariants only
+            # after the class had been created). The lists which the attribute look-up finds belong to a base and
+            # are copied, so that the invariant is added to this class and not to that base.
+            invariants = list(getattr(cls, "__invariants__"))
+            setattr(cls, "__invariants__", invariants)
+
+            invariants_on_call = list(getattr(cls, "__invariants_on_call__"))
+            setattr(cls, "__invariants_on_call__", invariants_on_call)
+
+            invariants_on_setattr = list(getattr(cls, "__invariants_on_setattr__"))
+            setattr(cls, "__invariants_on_setattr__", invariants_on_setattr)
         else:
             invariants = getattr(cls, "__invariants__")
             assert isinstance(
